@@ -1,19 +1,19 @@
 #!/bin/sh
 # usage: tools/seed_store.sh <CXX> <srcdir> <K> <note>
 # Full verification of a seeded change (demo both ways, baseline tests, registered quick check) and storage under seeded/<CXX>-<K>/
-P=$1; SRC=$2; K=$3; NOTE=$4
+P=$1; SRC=$2; K=$3; NOTE=$4; NAME=${SEED_NAME:-$P-$K}
 cd "$(dirname "$0")/.."
 OUT=$(tools/seed_eval.sh "$P" "$SRC" "$K" 2>&1)
-echo "== $P-$K"; echo "$OUT"
+echo "== $NAME"; echo "$OUT"
 DEMO_OK=$(echo "$OUT" | grep -c "demo_on_repo=0 demo_on_patched=1")
 TESTS_OK=$(echo "$OUT" | grep -c "tests_missing_from_baseline=0")
 CAUGHT=$(echo "$OUT" | grep -c "^VIOLATION")
 SIG=$(echo "$OUT" | grep "signature=" | head -1 | sed 's/.*signature=\([^ ]*\).*/\1/')
 if [ "$DEMO_OK" = "1" ] && [ "$TESTS_OK" = "1" ]; then
-  mkdir -p "seeded/$P-$K"
-  cp "$SRC/change$K.diff" "seeded/$P-$K/patch.diff"
-  cp "$SRC/demo$K.py" "seeded/$P-$K/demo.py"
-  /venv/bin/python - "$SRC/meta$K.json" "seeded/$P-$K/meta.json" "$P" "$CAUGHT" "$SIG" "$NOTE" <<'PY'
+  mkdir -p "seeded/$NAME"
+  cp "$SRC/change$K.diff" "seeded/$NAME/patch.diff"
+  cp "$SRC/demo$K.py" "seeded/$NAME/demo.py"
+  /venv/bin/python - "$SRC/meta$K.json" "seeded/$NAME/meta.json" "$P" "$CAUGHT" "$SIG" "$NOTE" <<'PY'
 import sys, json
 src, dst, prop, caught, sig, note = sys.argv[1:7]
 m = json.load(open(src))
@@ -24,7 +24,7 @@ out = {"property": prop, "summary": m.get("summary"), "needs": m.get("needs"), "
        "caught_by_quick_check": bool(int(caught)), "first_signature": sig or None, "note": note}
 json.dump(out, open(dst, "w"), indent=1)
 PY
-  echo "stored seeded/$P-$K caught=$CAUGHT sig=$SIG"
+  echo "stored seeded/$NAME caught=$CAUGHT sig=$SIG"
 else
-  echo "NOT STORED $P-$K demo_ok=$DEMO_OK tests_ok=$TESTS_OK"
+  echo "NOT STORED $NAME demo_ok=$DEMO_OK tests_ok=$TESTS_OK"
 fi
